@@ -14,7 +14,7 @@ import json
 import random
 
 from .. import vlib
-from ..eccrig import SECP, SMALL, DrawsExhausted, Enc, h_G, h_mul, retarget, scripted_rng
+from ..eccrig import SECP, SMALL, DrawsExhausted, Enc, h_G, h_mul, retarget, scripted_rng, retarget_applies, probe_sign, probe_verify
 from .c03 import judge
 
 FLAGS = [0x01, 0x02, 0x03, 0x81, 0x82, 0x83]
@@ -52,6 +52,8 @@ def _stage_ab(ctx):
         enc = Enc(c)
         pending, n, identical = [], 0, 0
         by_r = {}   # nonce clause: code r -> [(d, z, consumed draws, spec r)]
+        if not (retarget_applies(c, probe_sign, ctx, "ecmath.sign") and retarget_applies(c, probe_verify, ctx, "ecmath.verify")):
+            continue
         with retarget(c):
             for row in rows:
                 if row[1] == "sign":
